@@ -1,5 +1,6 @@
 import GoPlugin.Props.C01
 import GoPlugin.Generated.Facts
+import GoPlugin.Props.Hygiene
 /-
 C01 instantiated at the facts extracted from the current source (tie T-A):
 the obligation `facts_good` is re-checked on every run.
@@ -17,5 +18,9 @@ theorem holds_accept_iff_wellformed (c : HostCfg) (e : Ext) (l : Bytes) (a : Add
 theorem holds_never_panics (c : HostCfg) (e : Ext) (i : Input) :
     (∀ k, start Facts.handshake c e i ≠ .panic k) ∧ start Facts.handshake c e i ≠ .okNoAddr :=
   start_never_panics _ facts_good c e i
+
+theorem holds_address_recorded_verbatim (rewrite : String → String) (onLine : String) :
+    Hygiene.recordedAddr Facts.hygiene rewrite onLine = onLine :=
+  Props.Hygiene.address_recorded_verbatim _ (by decide) rewrite onLine
 
 end GoPlugin.Instance.C01
